@@ -1,48 +1,23 @@
 import Driver.Util
+import Driver.Env
 import Driver.Cb
 /-
 Line-protocol driver: one case per line, first token selects the engine, one reply line per case.
 Stateless across lines (a line is a complete case = a replay).  Core-only imports so that it links.
+To add an engine: write Driver/<Engine>.lean exposing `run : Env → String → String` (or fewer arguments),
+import it here and add one line to `dispatch`.
 -/
 open Driver
 
-structure Env where
-  rwTable : Array (Int × Int × Int)   -- sorted (lo, hi, width); anything not covered has width `rwDefault`
-  rwDefault : Int
-
-def Env.rw (e : Env) (r : Int) : Int := Id.run do
-  -- binary search over disjoint sorted ranges
-  let mut lo := 0
-  let mut hi := e.rwTable.size
-  while lo < hi do
-    let mid := (lo + hi) / 2
-    let (a, b, w) := e.rwTable[mid]!
-    if r < a then hi := mid
-    else if r > b then lo := mid + 1
-    else return w
-  return e.rwDefault
-
-def loadEnv (genDir : String) : IO Env := do
-  let p := genDir ++ "/runewidth.txt"
-  if !(← System.FilePath.pathExists p) then return { rwTable := #[], rwDefault := 1 }
-  let txt ← IO.FS.readFile p
-  let mut tbl : Array (Int × Int × Int) := #[]
-  let mut dflt : Int := 1
-  for l in txt.splitOn "\n" do
-    match words l with
-    | ["default", w] => dflt := toInt! w
-    | [a, b, w] => tbl := tbl.push (toInt! a, toInt! b, toInt! w)
-    | _ => pure ()
-  return { rwTable := tbl, rwDefault := dflt }
+def dispatch (env : Env) (eng rest : String) : String :=
+  match eng with
+  | "cb" => Cb.run env.rw rest
+  | _ => "bad-engine"
 
 def handle (env : Env) (line : String) : String :=
   let line := line.trimAscii.toString
   match line.splitOn " " with
-  | eng :: _ =>
-    let rest := (line.drop (eng.length + 1)).toString
-    match eng with
-    | "cb" => Cb.run env.rw rest
-    | _ => "bad-engine"
+  | eng :: _ => dispatch env eng (line.drop (eng.length + 1)).toString
   | [] => "bad-line"
 
 partial def loop (env : Env) (hin hout : IO.FS.Stream) : IO Unit := do
@@ -52,8 +27,7 @@ partial def loop (env : Env) (hin hout : IO.FS.Stream) : IO Unit := do
   loop env hin hout
 
 def main (args : List String) : IO Unit := do
-  let genDir := args.headD "gen"
-  let env ← loadEnv genDir
+  let env ← loadEnv (args.headD "gen")
   let hin ← IO.getStdin
   let hout ← IO.getStdout
   loop env hin hout
